@@ -44,7 +44,7 @@ def oracle(ctx, stores):
 
 
 def run(ctx):
-    generic.run(ctx, "C16", ["new1", "dir1", "new", "dir", "markup"], dict(flow=160, random=80, conforming=10, injected=10),
+    generic.run(ctx, "C16", ["new1", "dir1", "new", "dir", "markup"], dict(flow=160, random=80, conforming=10, injected=10, handlers=30),
                 oracle=oracle, with_diag=True, what="CFG error paths")
 
 
